@@ -39,8 +39,11 @@ func (m c09Model) predict(w *World, s *MsgSpec) (bool, c09Model, bool) {
 		ok, p, resync := m.P.predict(w, s)
 		return ok, c09Model{A: m.A, P: p}, resync
 	}
-	if s.Signer != w.Authority || !supportedActions[s.Action] {
+	if s.Signer != w.Authority {
 		return false, m, false
+	}
+	if !supportedActions[s.Action] {
+		return false, m, true // identifiers whose validity the property does not fix: outcome free, must change nothing we model
 	}
 	n := c09Model{A: map[string]bool{}, P: m.P}
 	for k := range m.A {
@@ -48,13 +51,13 @@ func (m c09Model) predict(w *World, s *MsgSpec) (bool, c09Model, bool) {
 	}
 	if s.RPC == "PauseAction" {
 		if m.A[s.Action] {
-			return false, m, false
+			return false, m, true // redundant: the property only says it changes nothing — it may fail or succeed
 		}
 		n.A[s.Action] = true
 		return true, n, false
 	}
 	if !m.A[s.Action] {
-		return false, m, false
+		return false, m, true // redundant
 	}
 	delete(n.A, s.Action)
 	return true, n, false
@@ -162,10 +165,10 @@ func checkC09(tier string) *Report {
 		m := model.(c09Model)
 		ok, n, resync := m.predict(w, op.Msg)
 		if resync {
-			if q, err := w.pauseSetsFromQueries(post); err == nil {
-				return c09Model{A: m.A, P: q}
+			if op.Msg.RPC == "PauseAction" || op.Msg.RPC == "UnpauseAction" {
+				return m // redundant or not-fixed action message: whatever its outcome, the paused-action set stays
 			}
-			return m
+			return c09Model{A: m.A, P: m.P.step(w, op.Msg, res.Succeeded(), post)}
 		}
 		if ok {
 			return n
@@ -196,6 +199,18 @@ func checkC09(tier string) *Report {
 		}
 		rep.Outcome("admin-applied")
 		rep.Distinct("op:" + m.String() + ">" + op.Label)
+		// after a successful message the paused-action set is exactly the model's (a redundant message that
+		// succeeds must have changed nothing)
+		gotA, err := w.QPausedActions(post)
+		var wantA []string
+		for k := range qm.(c09Model).A {
+			wantA = append(wantA, k)
+		}
+		sort.Strings(wantA)
+		sort.Strings(gotA)
+		if err != nil || strings.Join(gotA, ",") != strings.Join(wantA, ",") {
+			rep.Violate(Violation{Kind: "paused-actions-query", Sig: sig, Replay: replay, What: fmt.Sprintf("after %s PausedActions = %v (err=%v), model %v", op.Label, gotA, err, wantA)})
+		}
 		rep.Count("traces_validated_against_impl", 1)
 	}
 	x.OnState = func(wk *Worker, n Node, ctx sdk.Context, model any) {
